@@ -347,8 +347,25 @@ func driveChannel(s *shardSet, rng *rand.Rand, thorough bool) ([]string, map[str
 				for c := 0; c < ch; c++ {
 					w.ChanShape(par, c)
 					for i := 0; i < w.Views[par].Length(); i++ {
-						w.ChanIndex(par, c, i)
+						w.ChanIndex(par, c, i, c)
+						w.ChanIndex(par, c, i, rng.Intn(ch+1))
 						w.ChanSample(par, c, i)
+						w.ChanSet(par, c, i, w.NextStamp())
+						w.ChanSample(par, c, i)
+					}
+				}
+				// the views were taken above; the parent now changes shape (sample appends into spare
+				// capacity, then a growing append) and the SAME views must keep addressing it
+				for k := 0; k < ch; k++ {
+					w.AppendSample(par, w.NextStamp())
+				}
+				src := w.filledRoot(ty, ch, 2+rng.Intn(3))
+				w.Append(par, src)
+				w.Append(par, src)
+				for c := 0; c < ch; c++ {
+					w.ChanShape(par, c)
+					for _, i := range []int{0, w.Views[par].Length() - 1, rng.Intn(w.Views[par].Length())} {
+						w.ChanIndex(par, c, i, 0)
 						w.ChanSet(par, c, i, w.NextStamp())
 						w.ChanSample(par, c, i)
 					}
